@@ -80,3 +80,16 @@ void h_sm4_gcm_encrypt(void)
 	if (ret == 1) { CANARY("encrypted"); if (G.ivlen != 12) CANARY("encrypted-hashed-iv"); }
 	CANARY("returned");
 }
+
+typedef struct { uint8_t a[16]; } inc32_in;
+DECL_INPUT(inc32_in);
+//@job name=sm4_gcm_ctr32_incr props=C04 enforce=ctr32_incr unwindset=ctr32_incr.*:6 timeout=300
+void h_sm4_gcm_ctr32_incr(void)
+{
+	INPUT(inc32_in, I);
+	MKBUF(a, I.a, 16);
+	ctr32_incr(a);
+	NATIVE({ uint32_t v0 = ((uint32_t)I.a[12] << 24) | (I.a[13] << 16) | (I.a[14] << 8) | I.a[15], v1 = ((uint32_t)a[12] << 24) | (a[13] << 16) | (a[14] << 8) | a[15];
+		CHECK(v1 == (uint32_t)(v0 + 1) && memcmp(a, I.a, 12) == 0, "inc32: last four bytes + 1 mod 2^32, first twelve unchanged"); })
+	CANARY("returned");
+}
